@@ -27,6 +27,7 @@ import BHS.Gen.PeerConsts
 import BHS.Proofs.Peers
 import BHS.Proofs.PeersConnMgr
 import BHS.Proofs.PeersWire
+import BHS.Proofs.PeersAddrMgr
 
 namespace BHS.Props.C18
 open BHS
@@ -403,5 +404,59 @@ example : let w := run wcfg (start wcfg) [.ok 0 1 1, .done 0]
     w.c.conns = [] ∧ w.c.live.length = 2 ∧ w.out = [] ∧ Peers.count w.p = 0 := by decide
 
 end wired
+
+/-! ## Part 4 — the address manager never starves the connection manager -/
+section addrmgr
+open BHS.Model.AddrMgr BHS.Proofs.AddrMgr
+
+/-- the bookkeeping invariant (`nTried` = entries of the tried buckets, `nNew` = indexed addresses
+held by a new bucket, `refs` = number of new buckets holding the address, every indexed address is
+in a bucket) holds for the empty manager. -/
+theorem C18_addrmgr_invariant_init : Inv ({} : St) := inv_init
+
+/-- **`GetAddress` returns.** Under the invariant neither of its two `for {}` searches over random
+buckets is entered with all its buckets empty (so it ends with probability 1 and the manager's
+mutex is released), and it answers `nil` exactly when the manager counts no address. -/
+theorem C18_addrmgr_get_returns (s : St) (h : Inv s) (coin : Bool) :
+    getAddress s coin ≠ .hang ∧ (getAddress s coin = .nil ↔ s.nTried + s.nNew = 0) := by
+  refine ⟨get_not_hang h coin, ?_⟩
+  unfold getAddress
+  constructor
+  · intro hn
+    split at hn
+    · assumption
+    · split at hn <;> split at hn <;> cases hn
+  · intro h0
+    simp [h0]
+
+private def acfg : Cfg := { banT := 24, maxRefs := 8 }
+
+/-- **Counterexample for the code before commit 82e7a0f** (`removeTried false`): an address is
+added, connected (`Good`), banned. The removal decrements `refs` from 0 to −1 and therefore skips
+`nTried--` and the index deletion: `nTried = 1` with every tried bucket empty — `GetAddress` enters
+the tried search (whatever its coin says) and never leaves it. -/
+theorem C18_addrmgr_before_fix :
+    let s := ban false acfg (good (add acfg {} 0 (some 5)) 0 3) 0
+    s.nTried = 1 ∧ s.triedB = [] ∧ s.nNew = 0 ∧ find s 0 = some { refs := -1, tried := true } ∧
+    getAddress s true = .hang ∧ getAddress s false = .hang := by
+  decide
+
+/-- the same history on the code of today: nothing is left, `GetAddress` answers `nil`; a fresh
+address added afterwards is handed out. -/
+theorem C18_addrmgr_after_fix :
+    let s := run acfg {} [.add 0 (some 5), .good 0 3, .ban 0]
+    s.nTried = 0 ∧ s.nNew = 0 ∧ s.index = [] ∧ s.triedB = [] ∧ getAddress s true = .nil ∧
+    getAddress (step acfg s (.add 1 (some 9))) true = .new := by
+  decide
+
+-- non-vacuity of `Inv`: a state with a tried and a twice-referenced new address
+example : (run acfg {} [.add 0 (some 5), .good 0 3, .add 1 (some 9), .add 1 (some 11)]).nTried = 1 ∧
+    (run acfg {} [.add 0 (some 5), .good 0 3, .add 1 (some 9), .add 1 (some 11)]).nNew = 1 ∧
+    find (run acfg {} [.add 0 (some 5), .good 0 3, .add 1 (some 9), .add 1 (some 11)]) 1 = some { refs := 2, tried := false } := by decide
+-- a ban is honoured by `add` until it ends
+example : (run acfg {} [.ban 2, .clock 23, .add 2 (some 1)]).index = [] ∧
+    (run acfg {} [.ban 2, .clock 24, .add 2 (some 1)]).nNew = 1 := by decide
+
+end addrmgr
 
 end BHS.Props.C18
